@@ -66,7 +66,11 @@ def handle (j : Json) : R (List (String × Json)) := do
          ("legs_in_surgered_set", bool (Lkh.legsIn q es)),
          ("cost_accounting", bool (!exact ||
             Lkh.closedCost c q == Lkh.closedCost c path - Lkh.edgeSum c bs + Lkh.edgeSum c js))]
-    return [("model", Json.mkObj [("r", jOpt jPath model)]), ("oracle", Json.mkObj oracle)]
+    let exactI := match implR with
+      | none => false
+      | some q => Lkh.moveOk path bs js && nodup && es.length == path.length && Lkh.usesExactly q es
+    return [("model", Json.mkObj [("r", jOpt jPath model)]), ("oracle", Json.mkObj oracle),
+            ("info", Json.mkObj [("hyp", bool hyp), ("exact", bool exactI)])]
   else if k == "lkh" then
     let path ← listF asNat j "path"
     let cm ← matF j "c"
@@ -126,7 +130,8 @@ def handle (j : Json) : R (List (String × Json)) := do
             ("at_most_k", bool (cl.length ≤ max kk 1)),
             ("medoid_in_own_cluster", bool (!strict || KMed.specKeyInOwn cl)),
             ("k_clusters_when_strict", bool (!strict || cl.length == min (max kk 1) points.length))]
-    return [("model", model), ("oracle", Json.mkObj oracle)]
+    return [("model", model), ("oracle", Json.mkObj oracle),
+            ("info", Json.mkObj [("tie", bool tie), ("strict", bool strict), ("enough", bool enough)])]
   else if k == "hier" then
     let points ← listF asNat j "points"
     let dm ← matF j "d"
